@@ -35,7 +35,7 @@ func init() {
 }
 
 func C15Params(thorough bool) harness.GenParams {
-	p := harness.GenParams{MaxItems: 5, MaxOps: 8, MaxPages: 96, Reopen: true}
+	p := harness.GenParams{MaxItems: 5, MaxOps: 8, MaxPages: 96, Reopen: true, Overflow: true}
 	if thorough {
 		p.MaxItems, p.MaxPages = 10, 200
 	}
